@@ -35,12 +35,17 @@ func implLogSQL(query string, c qctx) (string, *logql_parser.LogQLScript, error)
 }
 
 // c07Text: the text tie — byte-equal SQL between the real planner and LogQL.planLog
-func c07Text(r *h.Result, rng *h.Rng, n int) error {
+func c07Text(r *h.Result, rng *h.Rng, n int) error { return c07TextCov(r, rng, n, nil) }
+
+func c07TextCov(r *h.Result, rng *h.Rng, n int, cov *c07gCov) error {
 	r.Stream("text: logql_parser.Parse → clickhouse_planner.Plan → Process → String vs LogQL.planLog/Sql.renderSel (byte-equal SQL)")
 	var ops, impl []string
 	var cases []any
 	for i := 0; i < n; i++ {
 		query := genLogQuery(rng, 4, 4)
+		if i%2 == 1 {
+			query = c07gQuery(rng, c07gGuided(c07gCfgPlain, cov)) // derived from the grammar (c07gram.go)
+		}
 		c := genCtx(rng)
 		sqlText, script, err := implLogSQL(query, c)
 		if err != nil {
@@ -60,6 +65,9 @@ func c07Text(r *h.Result, rng *h.Rng, n int) error {
 		impl = append(impl, h.Hex([]byte(sqlText)))
 		cases = append(cases, map[string]any{"query": query, "ctx": c})
 		nst := len(script.StrSelector.Pipelines)
+		if cov != nil {
+			c07gObserve(script, -1, cov.add)
+		}
 		r.Case("text:"+query+fmt.Sprint(c), nst > 0 || len(script.StrSelector.StrSelCmds) > 1)
 		r.Count(fmt.Sprintf("text:matchers=%d", len(script.StrSelector.StrSelCmds)))
 		r.Count(fmt.Sprintf("text:stages=%d", nst))
@@ -82,27 +90,37 @@ func c07(r *h.Result, rng *h.Rng, tier string, replay string) error {
 	if tier != "quick" {
 		n = 10000
 	}
-	r.Rule = "text: grammar-directed log queries (1–4 matchers, 0–4 stages: line filters |= != |~ !~, label filters with and/or/parentheses, string and numeric comparisons; hostile strings) × random planner contexts (windows, limits 0/1/100/5000, direction, type, cluster); non-trivial = more than one matcher or at least one stage; distinct by (query, context). sem: queries of ≤3 matchers/≤3 stages × contexts × databases of 1–6 streams (labels drawn from the query's vocabulary, index rows on day−1/day/day+1 with gaps, ≤8 samples per stream at the window edges, mixed types); non-trivial = the expected result is non-empty"
-	if err := c07Text(r, rng.Fork(), n); err != nil {
+	r.Rule = "text: grammar-directed log queries (1–4 matchers, 0–4 stages: line filters |= != |~ !~, label filters with and/or/parentheses, string and numeric comparisons; hostile strings) × random planner contexts (windows, limits 0/1/100/5000, direction, type, cluster); non-trivial = more than one matcher or at least one stage; distinct by (query, context). sem: queries of ≤3 matchers/≤3 stages × contexts × databases of 1–6 streams (labels drawn from the query's vocabulary, index rows on day−1/day/day+1 with gaps, ≤8 samples per stream at the window edges, mixed types); non-trivial = the expected result is non-empty. Every second query of text/sem/textx and two of three of semx are DERIVED FROM THE GRAMMAR (c07gram.go: the participle rules of logql_parser walked by reflection; parenthesis depth 0–3 drawn per filter, and/or/juxtaposed chains, quoted and ticked strings, every operator; label of a comparison drawn by class — stored, dropped, extracted only, stored and extracted, absent — ; pipelines starting with none / drop / parser / both; databases steered so that every comparison is true of some streams and false of others); keys gram:* = productions × position × depth measured on the real AST, an emitted-production obligation"
+	covPlain, plainAtoms := &c07gCov{}, map[string]int{}
+	if err := c07TextCov(r, rng.Fork(), n, covPlain); err != nil {
 		return err
 	}
 	m := 300
 	if tier != "quick" {
 		m = 5000
 	}
-	if err := c07Sem(r, rng.Fork(), m); err != nil {
+	if err := c07SemCov(r, rng.Fork(), m, covPlain, plainAtoms); err != nil {
 		return err
 	}
-	nx := 500
+	if err := c07gVerdict(r, "plain", covPlain, plainAtoms, []string{"stored"}, c07gPlainStructs); err != nil {
+		return err
+	}
+	nx := 700
 	if tier != "quick" {
 		nx = 10000
 	}
-	if err := c07TextX(r, rng.Fork(), nx); err != nil {
+	covX, atomsX := &c07gCov{}, map[string]int{}
+	if err := c07TextX(r, rng.Fork(), nx, covX); err != nil {
 		return err
 	}
-	mx := 400
+	mx := 700
 	if tier != "quick" {
 		mx = 6000
 	}
-	return c07SemX(r, rng.Fork(), mx)
+	if err := c07SemX(r, rng.Fork(), mx, covX, atomsX); err != nil {
+		return err
+	}
+	// the obligation on the generators: every production the model classifies as modelled / handed over, in every context;
+	// the comparisons by label class are counted on the SEMANTIC stream alone (the oracle has to have seen them)
+	return c07gVerdict(r, "x", covX, atomsX, c07gPositions, nil)
 }
